@@ -28,8 +28,8 @@ def shards(tier):
     for how in ("save-str", "save-path", "with", "with-exc", "twice"):
         for nrec in range(0, 4 if tier == "quick" else 5):
             out.append(dict(part="write", how=how, nrec=nrec, L=L if nrec <= 2 else 1, pre=6 if tier == "quick" else 12))
-    out.append(dict(part="names"))
-    out.append(dict(part="enter"))
+    out.append(dict(part="names", concrete=True))
+    out.append(dict(part="enter", concrete=True))
     return out
 
 
@@ -130,6 +130,11 @@ def _scenario(ctx, p, ns, c, part, tmp):
             w2.append("F;")
         c["after"] = list(wl)
         c["text"] = (str(wl), repr(wl))
+        big = ns.BaseWorklist()
+        n = ctx.choose("nbig", [10, 600, 5000])
+        for i in range(n):
+            big.comment(f"step {i}")
+        c["big"] = (n, list(big), str(big), repr(big), f"{big}")
         return wl
     path = f"{tmp}/out.gwl"
     c["path"] = path
@@ -195,6 +200,9 @@ def judge(ctx, p, outcome):
             ctx.violate(f"C17: entering the with block did not start from an empty worklist: {c['inside']}")
         if c["after"] != ["F;"] or c["text"] != ("F;", "F;"):
             ctx.violate("C17: worklist content / string conversion after the with block is wrong")
+        n, recs_, s_, r_, f_ = c["big"]
+        if len(recs_) != n or s_ != "\n".join(recs_) or r_ != s_ or f_ != s_:
+            ctx.violate("C17: string conversion of a long worklist does not show the same records", info=f"{n} records, str() has {s_.count(chr(10)) + 1} lines")
         return
     if kind == "exc":
         ctx.violate(f"C17: saving raised {type(val).__name__}: {val}")
